@@ -104,6 +104,12 @@ check("C20", "Same monitor over driver families 'flood' and 'browse': every get_
       "records received and still alive, timers proportional to live records and searches (strict clause: known finding; weaker 'popped' clause "
       "enforced), and zero records / <= 1 timer once every TTL has passed and all searches are stopped.", Q_NOTE, Q_TECH, "DESIGN.md section 7 C20")
 
+check("C12", "Both trace monitors derive from the API / packet history the set of pending time-driven work and its due times and require, at every park "
+      "of the real daemon, that the wake-up it asks its poller for is not later than the earliest of them (C12.cover), and that it never runs 30 idle "
+      "iterations in a row each asking to be woken within 1 ms (C12.nospin); exercised under policy W (woken only when it asks) on the 'silent' family "
+      "over horizons up to hours and with every interface-check setting, and at every park of the other families.",
+      Q_NOTE + " Work the daemon forgets to do even when woken is reported by the property that owns that work.", Q_TECH, "DESIGN.md section 7 C12")
+
 def hooks_commits():
     try:
         out = subprocess.run(["git", "-C", "/repo", "log", "--format=%h %s"], stdout=subprocess.PIPE, text=True).stdout
